@@ -256,7 +256,11 @@ func (s *Store[H]) GetByHeight(ctx context.Context, height uint64) (H, error) {
 
 	// if the requested 'height' was not yet published
 	// we subscribe to it
-	err := s.heightSub.Wait(ctx, height)
+	err := s.heightSub.WaitOrCheck(ctx, height, func() bool {
+		// the header may have been added between the lookup above and the registration
+		_, err := s.getByHeight(ctx, height)
+		return err == nil
+	})
 	if err != nil && !errors.Is(err, errElapsedHeight) {
 		return zero, fmt.Errorf("awaiting header %d with head %d: %w", height, s.Height(), err)
 	}
